@@ -43,6 +43,8 @@ type c01Peer struct {
 	// may stem from the initial table transfer rather than from incremental updates
 	upSinceCompare bool
 	deleted        bool // removed with DeletePeer (may be added again later)
+	// the peer sent ROUTE-REFRESH since its last comparison (full re-advertisement, like a session up)
+	refreshSinceCompare bool
 	// what this speaker currently announces: prefix -> id -> true
 	ann map[string]map[uint32]bool
 }
@@ -343,6 +345,21 @@ func (h *c01Hist) step() {
 	case k < 99 && len(ups) > 1: // burst: several speakers write concurrently (same prefixes) while one target is not reading
 		h.burst(ups)
 	default:
+		if len(ups) > 0 && r.IntN(2) == 0 {
+			// ROUTE-REFRESH from a peer: gobgp re-advertises its whole Adj-RIB-Out for the family
+			// (under routeRefreshInProgress.Lock, racing with incremental fan-out); the peer's view
+			// must come out the same
+			p := ups[r.IntN(len(ups))]
+			fam := bgp.RF_IPv4_UC
+			if p.spec.V6 && r.IntN(2) == 0 {
+				fam = bgp.RF_IPv6_UC
+			}
+			p.sp.sendMsg(bgp.NewBGPRouteRefreshMessage(fam.Afi(), 0, fam.Safi()))
+			p.refreshSinceCompare = true
+			h.events["route-refresh"]++
+			h.logf("route-refresh %s %s", p.spec.Addr, fam)
+			return
+		}
 		time.Sleep(time.Second)
 		h.events["tick"]++
 		h.logf("tick 1s")
@@ -520,6 +537,8 @@ func (h *c01Hist) compare(tag string) bool {
 				phase := "incremental"
 				if p.upSinceCompare {
 					phase = "after-session-up"
+				} else if p.refreshSinceCompare {
+					phase = "after-route-refresh"
 				}
 				inRib := h.ribIDs(p)
 				class, prio := "", 99
@@ -588,11 +607,11 @@ func (h *c01Hist) compare(tag string) bool {
 			}
 			p.sp.nUpdates = 0
 			p.sp.mu.Unlock()
-			p.upSinceCompare = false
+			p.upSinceCompare, p.refreshSinceCompare = false, false
 			h.rec.Count("quiescent_comparisons", 1)
 			continue
 		}
-		p.upSinceCompare = false
+		p.upSinceCompare, p.refreshSinceCompare = false, false
 		h.rec.Count("quiescent_comparisons", 1)
 		h.rec.Count("routes_compared", len(want))
 		p.sp.mu.Lock()
